@@ -780,3 +780,71 @@ m("C07", "refactor-lower-var", TL,
         key = name.lower()
         attributes.append(entry)
         normalized[key] = len(attributes) - 1''', expect="silent")
+
+# ---- C09 -------------------------------------------------------------------
+m("C09", "collector-not-popped-for-extend", ZP,
+  "        if use_macro or extend_macro:\n            self._use_macro.pop()",
+  "        if use_macro:\n            self._use_macro.pop()")
+m("C09", "slot-key-mismatch", C,
+  '        name = "__slot_%s" % mangle(node.name)\n        body = self.visit(node.node)',
+  '        name = "__slot_%s" % node.name\n        body = self.visit(node.node)')
+m("C09", "extend-pushes-right", C,
+  'append = template("_slots.appendleft(NAME)", NAME=fun)',
+  'append = template("_slots.append(NAME)", NAME=fun)')
+m("C09", "prologue-pops-left", C,
+  '''                "try: NAME = econtext[KEY].pop()\\n"''',
+  '''                "try: NAME = econtext[KEY].popleft()\\n"''')
+m("C09", "define-slot-branches-swapped", C,
+  '''            ast.If(test=test, body=body or [ast.Pass()], orelse=orelse)''',
+  '''            ast.If(test=test, body=orelse, orelse=body or [ast.Pass()])''')
+m("C09", "filler-shares-scope", C,
+  '''            "SLOT(__stream, econtext.copy(), rcontext)",''',
+  '''            "SLOT(__stream, econtext, rcontext)",''')
+m("C09", "macro-gets-callers-scope", C,
+  '''                "__m(__stream, econtext.copy(), "''',
+  '''                "__m(__stream, econtext, "''')
+m("C09", "no-merge-after-external-macro", C,
+  '''                "rcontext, __i18n_domain, __i18n_context, target_language)"
+            ) +
+            template("econtext.update(rcontext)")
+        )''',
+  '''                "rcontext, __i18n_domain, __i18n_context, target_language)"
+            )
+        )''')
+m("C09", "macroname-global", ZP,
+  '''                    ["macroname"], Static(ast.Constant(macro_name)), True)],''',
+  '''                    ["macroname"], Static(ast.Constant(macro_name)), False)],''')
+m("C09", "extend-flag-lost", ZP,
+  '''                    nodes.Value(extend_macro), slots, True
+                )''',
+  '''                    nodes.Value(extend_macro), slots, False
+                )''')
+m("C09", "names-without-cook-check", "zpt/template.py",
+  '''    def names(self) -> list[str]:
+        self.template.cook_check()
+
+        result = []''',
+  '''    def names(self) -> list[str]:
+        result = []''')
+m("C09", "include-without-cook-check", "zpt/template.py",
+  '''    def include(self, *args: Any, **kwargs: Any) -> None:
+        self.cook_check()
+        self._render(*args, **kwargs)''',
+  '''    def include(self, *args: Any, **kwargs: Any) -> None:
+        self._render(*args, **kwargs)''')
+m("C09", "use-keeps-outer-fillers", C,
+  '''            if node.extend:
+                append = template("_slots.appendleft(NAME)", NAME=fun)''',
+  '''            if True:
+                append = template("_slots.appendleft(NAME)", NAME=fun)''')
+m("C09", "slots-not-reset-per-macro", C,
+  '''        # Internal set of defined slots
+        self._slots = set()
+''', '''        # Internal set of defined slots
+        if not hasattr(self, "_slots"):
+            self._slots = set()
+''')
+m("C09", "refactor-collector-pop", ZP,
+  "        if use_macro or extend_macro:\n            self._use_macro.pop()",
+  "        if extend_macro or use_macro:\n            self._use_macro.pop()",
+  expect="silent")
